@@ -5,7 +5,7 @@
 (* logarithm the Pairing specification computes, sum of a_i.b_i; a single     *)
 (* pairing is the identity of Gt iff one of its arguments is the identity;    *)
 (* the target group's generator has order r.                                  *)
-EXTENDS Integers, Sequences, Json, IOUtils, TLC
+EXTENDS Integers, Tower, Json, IOUtils, TLC
 
 Rec == ndJsonDeserialize(IOEnv.TRACE)
 VARIABLE l
@@ -20,6 +20,10 @@ PairOK(e) ==
   /\ e.product = c /\ e.multi = c /\ e.multi_reversed = c
   /\ e.pairing_with_g1 = c /\ e.pairing_with_g2 = c
   /\ \A i \in 1..Len(e.terms) : e.single_is_identity[i] = (e.terms[i][1] = 0 \/ e.terms[i][2] = 0)
+\* the Miller-loop results of the single pairs combined with +, + &, +=, += & before one final exponentiation
+PairMLOK(e) ==
+  LET c == SumProd(e.terms) IN
+  e.expect = c /\ e.ml_add = c /\ e.ml_add_ref = c /\ e.ml_assign = c /\ e.ml_assign_ref = c
 GtOK(e) ==
   /\ e.gen_is_identity = FALSE
   /\ e.gen_times_r_is_identity = TRUE
@@ -27,11 +31,43 @@ GtOK(e) ==
   /\ e.double_is_add = TRUE
   /\ e.scalar_3 = 3 /\ e.scalar_neg2 = -2
 
+\* ---- the target group as the order-r subgroup of Fp12 (Tower.tla) -----------------
+\* Gt is written additively by the code: + is the product of Fp12, negation the conjugate (unitary elements),
+\* multiplication by a scalar the power.  Every value is given with its twelve coefficients.
+TowerOfEngine(n) == IF n = "bls12_381" THEN BlsT ELSE BnT
+OrderOf(n) == IF n = "bls12_381" THEN BlsR ELSE Bn254R
+IntModR(k, r) == IF k >= 0 THEN Rem(OfInt(k), r) ELSE Sub(r, Rem(OfInt(0 - k), r))
+\* final exponentiation: f |-> f^(c (p^12 - 1) / r) with a fixed c prime to r (FinalExpC below)
+FinalExpC(n) == IF n = "bls12_381" THEN 3 ELSE 1
+HardExp(T, r) == Quo(Sub(PowNat(T.m, 12), One), r)
+GtFOK(e) ==
+  LET T == TowerOfEngine(e.engine)
+      r == OrderOf(e.engine)
+      g == e.base
+      x == IF Len(e.ins) >= 1 THEN e.ins[1] ELSE DOne
+      y == IF Len(e.ins) >= 2 THEN e.ins[2] ELSE DOne
+  IN CASE e.op = "pairing" ->
+            /\ e.out = DPowI(g, IntModR(e.x.a * e.x.b, r), T)
+            \* e(G1, G2) generates a group of order r inside the cyclotomic subgroup
+            /\ (e.x.a = 1 /\ e.x.b = 1) => (e.out = g /\ g # DOne /\ DPowI(g, r, T) = DOne /\ InCyclo(g, T))
+       [] e.op = "identity" -> e.out = DOne
+       [] e.op = "is_identity" -> e.out = (x = DOne)
+       [] e.op = "neg" -> e.out = DConj(x, T) /\ DMul(x, e.out, T) = DOne
+       [] e.op = "double" -> e.out = DMul(x, x, T)
+       [] e.op = "add" -> e.out = DMul(x, y, T)
+       [] e.op = "sub" -> e.out = DMul(x, DConj(y, T), T)
+       [] e.op = "sum3" -> e.out = DMul(DMul(x, y, T), e.ins[3], T)
+       [] e.op = "eq" -> e.out = (x = y)
+       [] e.op = "mul" -> e.out = DPowI(x, e.x.scalar, T)
+       [] e.op = "final_exp" -> e.out = DPowI(x, MulInt(HardExp(T, r), FinalExpC(e.engine)), T)
+
 TInitL == l = 1
+TPairML == l <= Len(Rec) /\ Ev.ev = "PairML" /\ PairMLOK(Ev) /\ l' = l + 1
+TGtF == l <= Len(Rec) /\ Ev.ev = "GtF" /\ GtFOK(Ev) /\ l' = l + 1
 THeader == l <= Len(Rec) /\ Ev.ev = "header" /\ l' = l + 1
 TGt == l <= Len(Rec) /\ Ev.ev = "Gt" /\ GtOK(Ev) /\ l' = l + 1
 TPair == l <= Len(Rec) /\ Ev.ev = "Pair" /\ PairOK(Ev) /\ l' = l + 1
-TraceSpec == TInitL /\ [][THeader \/ TGt \/ TPair]_l
+TraceSpec == TInitL /\ [][THeader \/ TGt \/ TPair \/ TPairML \/ TGtF]_l
 
 TraceAccepted ==
   LET d == TLCGet("stats").diameter IN
